@@ -39,6 +39,19 @@ theorem step_once {c : Cfg} {σ σ' : RunSt} {g : Ghost} (hi : FInv c σ g) (hcr
     subst hs
     refine ⟨hm, ?_⟩
     simp only [gstep]; split <;> exact hn
+  | produceSame =>
+    simp only [opStep, Option.some.injEq] at hs
+    subst hs
+    refine ⟨hm, ?_⟩
+    simp only [gstep]; split <;> exact hn
+  | reapPutFails =>
+    simp only [opStep, Option.some.injEq] at hs
+    subst hs
+    have hm' : (if σ.drain = true then [] else σ.mempool).Nodup := by
+      split
+      · exact List.nodup_nil
+      · exact hm
+    exact ⟨hm', hn⟩
   | restart => cases hop
   | crash _ => cases hop
   | reap =>
